@@ -95,7 +95,7 @@ macro_rules! each_feature_type {
 		each_codec_type!(@list $f, $args;
 			SNamed, STuple, SUnit, SCompact, SSkip, SSingleCompact, SSingle, SEncodedAs, SGeneric<u16>, SGeneric<String>,
 			STransp, Box<STransp>, [STransp; 3], Box<STranspBig>, Vec<STransp>, CA, Compact<CA>, SHasCompact,
-			EPlain, EDisc, EIdx, ESkip, EBoth, EV1, Box<EV1>, Rc<EV1>, (Box<EV1>, u8), Vec<Box<EV1>>, [Box<EV1>; 2], STranspZ, Box<STranspZ>, [STranspZ; 3], Rc<STranspZ>, (Box<STranspZ>, u16), STranspC, Box<STranspC>, [STranspC; 3], Rc<STranspC>, (u8, Box<STransp>), Vec<EPlain>, Option<EIdx>, [ESkip; 2], Box<EPlain>,
+			EPlain, EDisc, EIdx, ESkip, EBoth, STranspCM, Box<STranspCM>, [STranspCM; 3], Box<STranspEA>, [STranspEA; 2], EV1, Box<EV1>, Rc<EV1>, (Box<EV1>, u8), Vec<Box<EV1>>, [Box<EV1>; 2], STranspZ, Box<STranspZ>, [STranspZ; 3], Rc<STranspZ>, (Box<STranspZ>, u16), STranspC, Box<STranspC>, [STranspC; 3], Rc<STranspC>, (u8, Box<STransp>), Vec<EPlain>, Option<EIdx>, [ESkip; 2], Box<EPlain>,
 			SMelGeneric<u32>, SMelCA, EMelCompact, RV, RB, Tree, RM, RL, Vec<SNamed>, Vec<SUnit>, BTreeMap<u8, EPlain>, Vec<SCompact>
 		);
 		#[cfg(feature = "bit-vec")]
@@ -331,7 +331,24 @@ fn main() {
 					drive_deep::<RM>(&mut ctx, &[4, 7], &[0]);
 				}
 			},
-			"C03" | "C08" | "C12" | "C14" | "C19" => { each_codec_type!(dec_one, (&mut ctx)); },
+			"C14" => {
+				each_codec_type!(dec_one, (&mut ctx));
+				let mut ops = vec![
+					cat_ops::<u8>(), cat_ops::<u32>(), cat_ops::<i128>(), cat_ops::<bool>(), cat_ops::<()>(), cat_ops::<Compact<u32>>(), cat_ops::<Compact<u128>>(),
+					cat_ops::<Option<u16>>(), cat_ops::<Result<u8, bool>>(), cat_ops::<String>(), cat_ops::<Vec<u8>>(), cat_ops::<Vec<u32>>(), cat_ops::<Vec<String>>(),
+					cat_ops::<VecDeque<u16>>(), cat_ops::<BTreeMap<u8, u16>>(), cat_ops::<BTreeSet<u32>>(), cat_ops::<LinkedList<u8>>(), cat_ops::<(u8, Vec<u8>)>(),
+					cat_ops::<[u16; 3]>(), cat_ops::<Box<u64>>(), cat_ops::<Duration>(), cat_ops::<OptionBool>(), cat_ops::<NonZeroU32>(), cat_ops::<Vec<()>>(),
+					cat_ops::<Vec<Vec<u8>>>(), cat_ops::<Option<Box<String>>>(), cat_ops::<f64>(),
+				];
+				#[cfg(feature = "derive")]
+				ops.extend(vec![cat_ops::<SNamed>(), cat_ops::<EPlain>(), cat_ops::<SCompact>(), cat_ops::<Tree>(), cat_ops::<Box<STranspZ>>(), cat_ops::<EIdx>()]);
+				#[cfg(feature = "bit-vec")]
+				ops.extend(vec![cat_ops::<BitVec<u8, Msb0>>(), cat_ops::<BitVec<u32, Lsb0>>()]);
+				#[cfg(feature = "bytes")]
+				ops.extend(vec![cat_ops::<bytes::Bytes>()]);
+				drive_cat(&mut ctx, &ops);
+			},
+			"C03" | "C08" | "C12" | "C19" => { each_codec_type!(dec_one, (&mut ctx)); },
 			_ => { eprintln!("unknown prop {}", prop); std::process::exit(2) },
 		},
 		_ => { eprintln!("usage: vharness gen --prop ID --tier T --seed N --out FILE"); std::process::exit(2) },
